@@ -1,5 +1,7 @@
 mod common;
 mod c14;
+mod c18;
+mod c20;
 mod extract;
 use common::*;
 use std::io::BufRead;
@@ -10,6 +12,8 @@ pub fn exec_line(line: &str) -> String {
     match guarded(move || {
         let t: Vec<&str> = l.split(' ').collect();
         c14::exec(&t)
+            .or_else(|| c20::exec(&t))
+            .or_else(|| c18::exec(&t))
             .unwrap_or_else(|| "bad-op".to_string())
     }) { Ok(s) => s, Err(m) => format!("PANIC {}", m.replace('\n', " ")) }
 }
@@ -17,13 +21,15 @@ pub fn exec_line(line: &str) -> String {
 fn main() {
     let args: Vec<String> = std::env::args().collect();
     if args.len() < 2 { eprintln!("usage: harness run <prop> <tier> <seed> <outdir> | exec | extract <outdir> | sizes"); std::process::exit(2); }
-    std::panic::set_hook(Box::new(|_| {}));
+    std::panic::set_hook(Box::new(|i| { if std::env::var("HARNESS_SHOW_PANICS").is_ok() { eprintln!("{}", i); } }));
     match args[1].as_str() {
         "run" => {
             let (prop, tier, seed, dir) = (&args[2], &args[3], args[4].parse::<u64>().unwrap(), &args[5]);
             let mut o = Out::default();
             match prop.as_str() {
                 "C14" => c14::run(&mut o, tier, seed),
+                "C18" => c18::run(&mut o, tier, seed),
+                "C20" => c20::run(&mut o, tier, seed),
                 _ => { eprintln!("unknown property {}", prop); std::process::exit(2); }
             }
             o.write(dir);
